@@ -49,6 +49,11 @@ def compare(mod, r):
     from check import leaves
     if leaves(a) == leaves(m):
         return ("format", "answers differ only in formatting")
+    # both sides reject the input but name different errors: the correspondence is broken, yet for the properties that
+    # only speak about accepted inputs / about "is an error" this input does not violate the property itself
+    if getattr(mod, "ERROR_IDENTITY_IRRELEVANT", False) and a.startswith("E:") and m.startswith("E:") \
+            and not (r.get("dev_panic") or r.get("rel_panic")):
+        return ("errdiff", "implementation and model both reject this input, with different errors (no property-violating input)")
     return ("value", "implementation and model disagree on the observable")
 
 
@@ -163,8 +168,27 @@ def run_property(ck, pid, tier, seed, replay):
                        "impl_release": r.get("rel", "")[:4000], "model": (r["model"] or "(implementation only)")[:4000], "origin": o,
                        "failing_cases_of_this_kind": len(lst),
                        "broken": "correspondence implementation vs Coq model (%s)" % getattr(mod, "CORRESPONDENCE", pid)}
-            v.violation(ck, h8(kind + r["case"]), payload, no_input=(kind == "format"))
+            v.violation(ck, h8(kind + r["case"]), payload, no_input=(kind in ("format", "errdiff")))
             print("DISAGREEMENT[%s] %s\n  case : %s\n  impl : %s\n  model: %s" % (kind, detail, r["case"][:600], r["dev"][:600], (r["model"] or "")[:600]))
+        # ---------------- extraction cross-check: vm_compute inside Coq vs the extracted binary ----------------
+        from vlib import coqeval
+        pool = [r for r in results if r["model"] is not None and not r["model"].startswith("<no answer") and len(r["case"]) < 900]
+        xr = random.Random(seed * 7919 + int(pid[1:]))
+        xr.shuffle(pool)
+        budget, sample = getattr(mod, "XCHECK_CHARS", 9000), []
+        for r in pool:
+            if len(sample) >= (getattr(mod, "XCHECK_N", 20) if tier != "thorough" else 4 * getattr(mod, "XCHECK_N", 20)):
+                break
+            if budget - len(r["case"]) < 0:
+                continue
+            budget -= len(r["case"])
+            sample.append((r["case"], r["model"]))
+        n_x, xerr, xfail = coqeval.cross_check(ck.COQ, os.path.join(ck.ROOT, "work"), sample)
+        cov["extraction_crosscheck"] = {"cases": n_x, "agree": xerr is None}
+        if xerr is not None:
+            print("XCHECK: vm_compute in Coq and the extracted modelrun disagree on: %s\n%s" % (xfail, xerr[-800:]))
+            v.violation(ck, "xcheck", {"why": "the extracted model binary does not compute what the Coq definitions compute (extraction / OCaml driver)",
+                                       "case": xfail, "coqc": xerr[-1500:], "broken": "extraction cross-check (vlib/coqeval.py)"}, no_input=True)
     else:
         cov["evaluations"] = 0
         cov["distinct_nontrivial"] = 0
